@@ -305,14 +305,18 @@ def lnxLogin (c : LnxCfg) (start? : Option Nat) (b : BS) : R Unit :=
   let r := lnxLoginBody c start b
   (r.1, closeLnx (streamOff 2 r.2))
 
+/-- `AskfirstInitializer` if it is part of the machine; returns `_boot_start` as it leaves it -/
+def lnxAskStage (c : LnxCfg) (b : BS) : R (Option Nat) :=
+  match c.askfirst with
+  | none => (.ok none, b)
+  | some banner =>
+    match lnxAskfirst c banner b with
+    | (.error e, b) => (.error e, b)
+    | (.ok s, b) => (.ok (some s), b)
+
 /-- the initializers and `init()` of the Linux machine (its connector has run) -/
 def lnxUp (c : LnxCfg) (b : BS) : R Unit :=
-  match (match c.askfirst with
-         | none => ((.ok none, b) : R (Option Nat))
-         | some banner =>
-           match lnxAskfirst c banner b with
-           | (.error e, b) => (.error e, b)
-           | (.ok s, b) => (.ok (some s), b)) with
+  match lnxAskStage c b with
   | (.error e, b) => (.error e, b)
   | (.ok s, b) =>
     match lnxLogin c s b with
